@@ -17,12 +17,13 @@ namespace SpVerif.RTree
 abbrev NBox := List Int
 abbrev Row := Nat × NBox
 
-def mins (d : Nat) (b : NBox) : List Int := b.take d
-def maxs (d : Nat) (b : NBox) : List Int := b.drop d
+/-- minimum / maximum of box `b` in dimension `k` (`b[k]`, `b[d + k]`) -/
+def lo (b : NBox) (k : Nat) : Int := b.getD k 0
+def hi (d : Nat) (b : NBox) (k : Nat) : Int := b.getD (d + k) 0
 
 /-- union of two boxes: `min` on the minima, `max` on the maxima -/
 def unionBox (d : Nat) (a b : NBox) : NBox :=
-  List.zipWith min (mins d a) (mins d b) ++ List.zipWith max (maxs d a) (maxs d b)
+  (List.range d).map (fun k => min (lo a k) (lo b k)) ++ (List.range d).map (fun k => max (hi d a k) (hi d b k))
 
 /-- NaN-aware union as in the bottom-up pass: an absent child (NaN in column 0) is ignored -/
 def unionOpt (d : Nat) : Option NBox → Option NBox → Option NBox
@@ -32,13 +33,11 @@ def unionOpt (d : Nat) : Option NBox → Option NBox → Option NBox
 
 /-- `query[n+d] < node[d] or query[d] > node[n+d]` for some dimension -/
 def outside (d : Nat) (q b : NBox) : Bool :=
-  (List.zipWith (fun qmax bmin => decide (qmax < bmin)) (maxs d q) (mins d b)).any id ||
-  (List.zipWith (fun qmin bmax => decide (qmin > bmax)) (mins d q) (maxs d b)).any id
+  (List.range d).any (fun k => decide (hi d q k < lo b k) || decide (lo q k > hi d b k))
 
 /-- not (`node[d] < query[d] or node[n+d] > query[n+d]` for some dimension) -/
 def inside (d : Nat) (q b : NBox) : Bool :=
-  (List.zipWith (fun bmin qmin => !decide (bmin < qmin)) (mins d b) (mins d q)).all id &&
-  (List.zipWith (fun bmax qmax => !decide (bmax > qmax)) (maxs d b) (maxs d q)).all id
+  (List.range d).all (fun k => !(decide (lo b k < lo q k) || decide (hi d b k > hi d q k)))
 
 inductive PTree where
   | leaf (rows : List Row)
